@@ -50,7 +50,7 @@ impl Clock {
     }
 }
 
-fn tracker_scenario(ctx: &mut Ctx, len: usize) {
+fn tracker_scenario(ctx: &mut Ctx, len: usize, pairs: &mut std::collections::HashSet<String>) {
     ctx.directive("new tracker");
     let mut t = PerSourceWatermarkTracker::new();
     let nsrc = ctx.rng.range(1, 4) as usize;
@@ -69,15 +69,18 @@ fn tracker_scenario(ctx: &mut Ctx, len: usize) {
     for _ in 0..len {
         let r = ctx.rng.below(100);
         let s = ctx.rng.below(nsrc as u64 + 1) as usize; // one index beyond: never registered up front
+        let before = tracker_state(&t);
         if r < 72 {
             let ts = clock.next(ctx, s, 1);
             t.observe_event(&s.to_string(), at(ts));
             if !registered[s] { ctx.count("tracker.observe.auto-register"); registered[s] = true; } else { ctx.count("tracker.observe"); }
+            pairs.insert(format!("{}|obs {} {}", before, s, ts));
             ctx.case(&format!("obs {} {}", s, ts), &tracker_state(&t));
         } else if r < 90 {
             let w = clock.now[s] + ctx.rng.range(-10, 10);
             t.advance_source_watermark(&s.to_string(), at(w));
             ctx.count(if registered[s] { "tracker.advance" } else { "tracker.advance.unknown" });
+            pairs.insert(format!("{}|adv {} {}", before, s, w));
             ctx.case(&format!("adv {} {}", s, w), &tracker_state(&t));
         } else {
             let ooo = *ctx.rng.pick(&oos);
@@ -105,7 +108,7 @@ fn program(streams: &[StreamSpec], net: usize) -> String {
     p
 }
 
-fn engine_scenario(ctx: &mut Ctx, rt: &tokio::runtime::Runtime, len: usize) {
+fn engine_scenario(ctx: &mut Ctx, rt: &tokio::runtime::Runtime, len: usize, pairs: &mut std::collections::HashSet<String>) {
     let net = ctx.rng.range(1, 3) as usize;
     let ns = ctx.rng.range(1, 4) as usize;
     let oos = [0i64, 500, 1000, 2000, 3000];
@@ -141,10 +144,47 @@ fn engine_scenario(ctx: &mut Ctx, rt: &tokio::runtime::Runtime, len: usize) {
     ctx.count(if streams.iter().any(|s| s.ooo.is_some()) { "engine.tracking-on" } else { "engine.tracking-off" });
     ctx.count(if streams.iter().any(|s| s.late.is_some()) { "engine.has-late-config" } else { "engine.no-late-config" });
     let mut clock = Clock { now: vec![0; 5] };
+    let state_of = |engine: &Engine| match engine.create_checkpoint().watermark_state {
+        Some(cp) => fmt_cp(&cp, &|n: &str| n.strip_prefix('E').and_then(|x| x.parse::<u64>().ok())),
+        None => "off".to_string(),
+    };
     for n in 0..len {
+        // hot reload of the *same* program on the running engine: `reload` loads into a fresh engine
+        // and takes streams/router from it; the live tracker and late-data configs must be untouched
+        if ctx.rng.chance(1, 10) {
+            let rep = engine.reload(&prog);
+            let r = match rep {
+                Ok(r) => format!("+{} -{} ~{}", r.streams_added.len(), r.streams_removed.len(), r.streams_updated.len()),
+                Err(e) => format!("ERR {}", e),
+            };
+            ctx.count("engine.reload-same-program");
+            ctx.case("rel", &format!("{} | {}", r, state_of(&engine)));
+        }
         let et = ctx.rng.below(net as u64 + 1) as usize; // net = an event type nobody consumes
         let ts = clock.next(ctx, et, 500);
         let ev = Event::new(format!("E{}", et)).with_timestamp(at(ts)).with_field("v", n as i64);
+        // which situation of the gate does this event exercise (from the configuration and the
+        // implementation's own effective watermark before the event)
+        let before = state_of(&engine);
+        let eff: Option<i64> = engine.create_checkpoint().watermark_state.and_then(|c| c.effective_watermark_ms).map(|w| w - BASE_MS);
+        let consuming: Vec<&StreamSpec> = streams.iter().filter(|s| s.et == et).collect();
+        let any_cfg = streams.iter().any(|s| s.late.is_some());
+        let situation = match eff {
+            None => "no-effective-watermark",
+            Some(w) if ts >= w => "not-behind",
+            Some(w) => {
+                if consuming.iter().any(|s| s.late.map_or(false, |l| ts >= w - l)) {
+                    if ts == w - consuming.iter().filter_map(|s| s.late).filter(|l| ts >= w - l).min().unwrap_or(0) { "behind.allowed-exactly-at-lateness-bound" } else { "behind.allowed-by-lateness" }
+                }
+                else if !any_cfg { "behind.no-config-anywhere" }
+                else if consuming.is_empty() { "behind.unrouted-type" }
+                else if consuming.iter().all(|s| s.late.is_none()) { "behind.config-only-on-other-streams" }
+                else if consuming.iter().any(|s| s.side.is_some()) { "behind.late-for-all.side-output" }
+                else { "behind.late-for-all.drop" }
+            }
+        };
+        ctx.count(&format!("situation.{}", situation));
+        pairs.insert(format!("{}|{}|{}|{}", spec, before, et, ts));
         let res = rt.block_on(engine.process(ev));
         let mut outs: Vec<usize> = Vec::new();
         let mut side: Option<String> = None;
@@ -162,10 +202,7 @@ fn engine_scenario(ctx: &mut Ctx, rt: &tokio::runtime::Runtime, len: usize) {
             (None, false) => { ctx.count("gate.out"); "out".to_string() }
             (None, true) => { ctx.count("gate.none"); "none".to_string() }
         };
-        let state = match engine.create_checkpoint().watermark_state {
-            Some(cp) => fmt_cp(&cp, &|n: &str| n.strip_prefix('E').and_then(|x| x.parse::<u64>().ok())),
-            None => "off".to_string(),
-        };
+        let state = state_of(&engine);
         let err = if res.is_err() { " ERR" } else { "" };
         ctx.case(&format!("ev {} {}", et, ts), &format!("{} outs={}{}{} | {}", dec, outs_s, odd, err, state));
     }
@@ -174,6 +211,10 @@ fn engine_scenario(ctx: &mut Ctx, rt: &tokio::runtime::Runtime, len: usize) {
 pub fn run(ctx: &mut Ctx, _name: &str) {
     let rt = tokio::runtime::Builder::new_current_thread().enable_all().build().expect("rt");
     let (nt, ne) = if ctx.thorough { (1500, 1500) } else { (150, 150) };
-    for _ in 0..nt { let len = ctx.rng.range(5, 40) as usize; tracker_scenario(ctx, len); }
-    for _ in 0..ne { let len = ctx.rng.range(5, 30) as usize; engine_scenario(ctx, &rt, len); }
+    let mut pairs: std::collections::HashSet<String> = std::collections::HashSet::new();
+    for _ in 0..nt { let len = ctx.rng.range(5, 40) as usize; tracker_scenario(ctx, len, &mut pairs); }
+    for _ in 0..ne { let len = ctx.rng.range(5, 30) as usize; engine_scenario(ctx, &rt, len, &mut pairs); }
+    // finer than "distinct op lines": distinct (configuration, tracker state before, operation) triples
+    ctx.count_n("distinct.(config,state-before,operation)", pairs.len() as u64);
+    ctx.notes.push(format!("distinct (configuration, tracker state before, operation) triples: {} of {} cases", pairs.len(), ctx.cases));
 }
